@@ -74,7 +74,15 @@ class Excel:
         handle_cell(first, self._titles)
         handle_cell(second, self._titles)
 
-        return Cell(base.title, base.column + (second.column - first.column), base.row + (second.row - first.row) if first.row is not None or second.row is not None else None)
+        if (first.row is None) != (second.row is None):
+            raise E2PyclParserException('Invalid cell coordinates')
+
+        if first.row is not None and base.row is None:
+            # a target given as whole columns (B:B) next to a bounded range starts in the first row
+            base.row = 0
+
+        return Cell(base.title, base.column + (second.column - first.column),
+                    base.row + (second.row - first.row) if first.row is not None else None)
 
     def _get_vertical_range(self, first: Cell, second: Cell) -> list:
         start_row = first.row
